@@ -74,6 +74,15 @@ impl CodeCache {
       .and_then(|block| Some(block.offset))
   }
 
+  /// Tag lookups and insertions in the switchable ROM window (0x4000-0x7fff)
+  /// with the ROM bank that is mapped there now, so that blocks translated
+  /// from one bank are never run after another bank has been switched in.
+  pub fn set_rom_bank(&mut self, bank: usize) {
+    if let Some(region) = self.code_blocks.get_region_mut(0x4000) {
+      region.set_bank(bank as u16);
+    }
+  }
+
   pub fn get_executable_memory_segment(&self, ip: usize, mem_ptr: *const MemoryAreas) -> &[u8] {
     let mem = unsafe { &*mem_ptr };
     match ip {
